@@ -296,15 +296,57 @@ theorem gatherEquations_keeps (fuel : Nat) : ∀ (ps : VarList) (orig : List Str
         split
         · split
           · split
-            · rename_i same rest heq
+            · rename_i w hc x hd same rest heq
               refine List.mem_cons_of_mem _ (List.mem_append.mpr (Or.inr ?_))
-              have hk := selectAll_snd_keeps ps _ p h hnv
-              have hlen := selectAll_snd_length ps (by assumption)
+              have hk := selectAll_snd_keeps ps w p h hnv
+              have hlen := selectAll_snd_length ps w
               rw [heq] at hk hlen
               exact ih _ _ (by simp at hlen; omega) p hk hnv
             · exact ih _ _ hl' p h hnv
           · exact ih _ _ hl' p h hnv
         · exact List.mem_cons_of_mem _ (ih _ _ hl' p h hnv)
+
+/-- an equation between variables is only ever written for an original query variable. -/
+theorem gatherEquations_var_orig (fuel : Nat) : ∀ (ps : VarList) (orig : List String),
+    ∀ p ∈ gatherEquations fuel ps orig, ∀ v, p.2 = .var v → orig.contains v = true := by
+  induction fuel with
+  | zero => intro ps orig p hp; simp [gatherEquations] at hp
+  | succ f ih =>
+    intro ps orig p hp v hv
+    cases ps with
+    | nil => simp [gatherEquations] at hp
+    | cons q ps =>
+      obtain ⟨n, t⟩ := q
+      simp only [gatherEquations] at hp
+      split at hp
+      · split at hp
+        · split at hp
+          · rename_i w hc x hd same rest heq
+            cases hp with
+            | head => simp at hv; subst hv; exact hc
+            | tail _ h =>
+              rcases List.mem_append.mp h with h1 | h2
+              · have hs := selectAll_fst_sub ps w p (by rw [heq]; exact List.mem_cons_of_mem _ h1)
+                rw [hs.2] at hv; simp at hv; subst hv; exact hc
+              · exact ih _ _ p h2 v hv
+          · exact ih _ _ p hp v hv
+        · exact ih _ _ p hp v hv
+      · rename_i hnv
+        cases hp with
+        | head => exact absurd hv (by simpa using hnv v)
+        | tail _ h => exact ih _ _ p h v hv
+
+theorem containsVar_of_mem_gatherQueryVars (vl : VarList) (v : String) :
+    v ∈ gatherQueryVars vl → containsVar vl v = true := by
+  induction vl with
+  | nil => simp [gatherQueryVars]
+  | cons q vl ih =>
+    obtain ⟨n, t⟩ := q
+    cases t <;> simp [gatherQueryVars, containsVar] <;> intro h
+    · rcases h with h | h
+      · exact Or.inl h.symm
+      · exact Or.inr (ih h)
+    all_goals exact ih h
 
 end Toplevel
 end Scryer
